@@ -218,7 +218,10 @@ pub fn history(cfg: &Cfg, rep: &mut Report, h: u64, steps: usize, mode: Mode, of
         };
         let op = if step < nu {
             Op::AssetMint { to: step, a: if huge { 1i128 << 124 } else { *rng.pick(&[1_000_000i128, 10i128.pow(18), 12345]) } }
-        } else if step == nu {
+        } else if step == nu && rng.chance(1, 4) {
+            // a donation into the still empty vault (assets without shares), the first deposit comes later
+            Op::Donate { from: 0, a: *rng.pick(&[1i128, 1000, 999_999]) }
+        } else if step == nu || (step == nu + 1 && s_tot == 0) {
             Op::Deposit { assets: *rng.pick(&[1i128, 1000, 999_999]), receiver: 0, from: 0, operator: 0 }
         } else {
             // round trip immediately after a deposit, sometimes
@@ -327,6 +330,11 @@ pub fn history(cfg: &Cfg, rep: &mut Report, h: u64, steps: usize, mode: Mode, of
                 rep.check("diff", got == want, &format!("C05/diff/{f}"), || {
                     format!("{f}({probe}) with total_assets={a_tot} total_supply={s_tot} offset={offset}: contract {got:?}, exact {want:?}")
                 });
+            }
+            // the vault's own idea of its assets is the asset token's balance of the vault
+            {
+                let ta: Result<i128, Fail> = invoke(&v.w.env, &v.vault, "total_assets", args!(&v.w.env));
+                rep.check("diff", ta == Ok(a_tot), "C05/diff/total_assets", || format!("total_assets() = {ta:?}, the asset token says the vault holds {a_tot}"));
             }
             for who in 0..nu {
                 let mw = v.getter_addr("max_withdraw", who).ok();
